@@ -215,7 +215,7 @@ def r3_cap_provenance(ctx):
     for f in ctx.ds.F.values():
         for bb, i, st in f.aggregates(r"^extractor::body::StreamingBody$"):
             sites.append((f, bb, st))
-    ctx.check(R, "aggregate-sites", len(sites) >= 3, "aggregate sites of StreamingBody: %s" % sorted(f.id for f, _, _ in sites), nontrivial=False)
+    ctx.check(R, "aggregate-sites", len(sites) >= 2, "aggregate sites of StreamingBody: %s" % sorted(f.id for f, _, _ in sites), nontrivial=False)
     fields = [x["name"] for x in ctx.ds.adts["extractor::body::StreamingBody"]["variants"][0]["fields"]]
     ci = fields.index("cap")
     for f, bb, st in sites:
